@@ -479,7 +479,10 @@ type TreeOpts struct {
 	KeyType  string   // a string type usable as key shortcut ("" = none)
 }
 
-var keyPool = []string{"a", "b", "c", "id", "x y", "k\"q", "é", "@at", "n\nl", "b\\s", ""}
+var keyPool = []string{"a", "b", "c", "id", "x y", "k\"q", "é", "@at", "n\nl", "b\\s", "",
+	// characters that JSON writes as \u00XX only (Go's own quoting has other spellings for them), DEL, a
+	// non-printable astral character, the byte order mark
+	"c\x01", "\x00", "bell\a", "v\vt", "esc\x1b[0m", "del\x7f", "tag\U000e0001", "\ufeffbom", "ls\u2028ps\u2029"}
 
 // Tree draws a value tree whose leaves are rule-carrying scalars.
 func Tree(t *rapid.T, o TreeOpts, depth int, label string) *model.Node {
